@@ -61,6 +61,7 @@ func runC06(r *fw.Run, p *fw.Program) {
 	c06BufSlice(r, p, reach)
 	c06Alloc(r, p)
 	c06Bounds(r, p, reach)
+	c06Sentinel(r, p, reach)
 	c06Sym(r, p)
 	c06OutType(r, p)
 }
